@@ -81,6 +81,9 @@ type Violation struct {
 	Decisions []decision  `json:"decisions"`
 	Stack     []string    `json:"stack,omitempty"`
 	Confirmed string      `json:"confirmed,omitempty"`
+	// Tolerate: assertions that failed earlier on this path only as listed findings (the engine
+	// walks past those); the native replay must walk past them too to reach this violation.
+	Tolerate []string `json:"tolerate,omitempty"`
 }
 
 type PathSample struct {
@@ -682,6 +685,7 @@ func (m *machine) obligation(cond value, tag string) {
 	if isConc {
 		if !isNew {
 			// only a listed finding: keep exploring the rest of the path
+			m.knownPassed = append(m.knownPassed, tag)
 			return
 		}
 		panic(pathEnd{"abort", "assertion " + tag + " failed"})
@@ -774,7 +778,7 @@ func (m *machine) violated(tag, negTerm, detail string) (isNew bool) {
 	m.sol.Pop()
 	m.lastModel = vals
 	m.sampleWanted = true
-	v := Violation{Harness: m.cfg.Entry, Tag: tag, Detail: detail, Values: vals, Stack: m.stack()}
+	v := Violation{Harness: m.cfg.Entry, Tag: tag, Detail: detail, Values: vals, Stack: m.stack(), Tolerate: append([]string(nil), m.knownPassed...)}
 	if tag == "panic" && m.panicStack != nil {
 		v.Stack = m.panicStack
 	}
